@@ -88,7 +88,8 @@ class Ctx:
         self.config = "pinned"
         self.selftest = []
 
-    def prog(self, config="pinned", siblings=False, extra_units=()):
+    def prog(self, config=None, siblings=False, extra_units=()):
+        config = config or (self.config if self.config in facts.CONFIGS else "pinned")
         k = (config, siblings, tuple(extra_units))
         if k not in self._progs:
             d, m = facts.generate(config, siblings=siblings, extra_units=extra_units)
@@ -127,6 +128,41 @@ def run_property(pid, tier, seed, progs=None):
     return ctx, mod
 
 
+def selftest(pid, ctx):
+    """Thorough tier: the checker tested both ways on scratch copies of the *current* tree: the property's mutant corpus
+    (every mutant must be reported by an expected rule; equivalent mutants must stay silent) and the seeded changes of
+    independent sub-agents.  Survivors are printed as SELFTEST-SURVIVOR lines; they are bugs of the checker and never
+    change the verdict about /repo."""
+    sys.path.insert(0, os.path.join(VERIF, "tools"))
+    import mutants as mut
+    out = {}
+    res = mut.run(pid, jobs=12)
+    if res:
+        out["mutants"] = {"total": len(res), "killed_as_expected": sum(1 for r in res if r["result"] == "killed"),
+                          "matrix": [{"id": r["id"], "result": r["result"], "fired": r.get("fired")} for r in res]}
+        for r in res:
+            if r["result"] != "killed":
+                ctx.selftest.append("SELFTEST-SURVIVOR property=%s mutant=%s result=%s fired=%s" % (pid, r["id"], r["result"], r.get("fired")))
+    sd = os.path.join(VERIF, "seeded")
+    seeds = []
+    if os.path.isdir(sd):
+        for name in sorted(os.listdir(sd)):
+            mp = os.path.join(sd, name, "meta.json")
+            pp = os.path.join(sd, name, "patch.diff")
+            if not (os.path.exists(mp) and os.path.exists(pp)):
+                continue
+            meta = json.load(open(mp))
+            if meta.get("property") != pid:
+                continue
+            r = mut.run_patch(pid, pp)
+            seeds.append({"seed": name, "result": r["result"], "fired": r.get("fired")})
+            if r["result"] != "killed":
+                ctx.selftest.append("SELFTEST-SURVIVOR property=%s seeded=%s result=%s" % (pid, name, r["result"]))
+    if seeds:
+        out["seeded_changes"] = seeds
+    return out
+
+
 def main(argv=None):
     argv = list(sys.argv[1:] if argv is None else argv)
     if not argv:
@@ -158,11 +194,19 @@ def main(argv=None):
     try:
         ctx, mod = run_property(pid, tier, seed)
         extra = {}
-        if tier == "thorough" and hasattr(mod, "thorough"):
-            extra = mod.thorough(ctx) or {}
+        if tier == "thorough":
+            # the same rules on the other build configurations
+            for cfg in getattr(mod, "THOROUGH_CONFIGS", ("debug", "malloc", "mmap", "ucontext")):
+                ctx.config = cfg
+                mod.run(ctx)
+            ctx.config = "pinned"
+            if hasattr(mod, "thorough"):
+                extra = mod.thorough(ctx) or {}
+            ctx.config = "pinned"
             for o in ctx.obs:
                 if o.status is None:
                     raise AnalysisBroken("obligation %s/%s left undecided" % (o.rule, o.fn))
+            extra.update(selftest(pid, ctx))
     except AnalysisBroken as e:
         print("ANALYSIS-BROKEN property=%s %s" % (pid, e))
         return 2
